@@ -106,7 +106,8 @@ fn execute(sc: &Scenario, acc: &mut Acc) -> Result<Vec<Violation>, String> {
         }
         let all: Vec<String> = full_paths.iter().map(|(p, _)| p.clone()).collect();
         let dirs: Vec<String> = full_entries.iter().filter(|e| format!("{:?}", e.kind) == "Dir").map(|e| e.apath.to_string()).collect();
-        let listing_links: Vec<String> = full_entries.iter().filter(|e| format!("{:?}", e.kind) == "Symlink").map(|e| e.apath.to_string()).collect();
+        // listed entries that are not directories: nothing can be restored below them
+        let listing_links: Vec<String> = full_entries.iter().filter(|e| format!("{:?}", e.kind) != "Dir").map(|e| e.apath.to_string()).collect();
         // subtrees to list: every entry, plus non-existent siblings and prefixes
         let mut subs: Vec<String> = all.clone();
         for p in all.iter().take(6) {
@@ -223,7 +224,8 @@ fn execute(sc: &Scenario, acc: &mut Acc) -> Result<Vec<Violation>, String> {
             for (p, n) in &rr.snap {
                 if ref_is_ancestor_or_self(s, p) {
                     if !fr.snap.contains_key(p) {
-                        // the full restore rightly refuses what lies below a symlink it restored
+                        // the full restore rightly refuses what lies below a symlink it restored,
+                        // and cannot create what lies below a path the newer band made a file
                         let below_link = listing_links.iter().any(|l| l != p && ref_is_ancestor_or_self(l, p));
                         if full_clean {
                             out.push(Violation::new(prop, "subtree_restore_equals_full_restore", "extra_inside", format!("b{id:04} only_subtree {s:?}: {p:?} restored but not in the full restore")));
